@@ -15,7 +15,7 @@ spec = {
   'probes': [{'kind': 'assist-attr'|'assist-bare'|'location'|'lint', 'file': mid, 'expr': str|None,
               'path': [mid, ...]}],  # modules the probe expression walks through (file first)
 }
-A module may carry 'broken': True (its initial content has a syntax error).  A package __init__ may be absent at
+A module may carry 'broken': 'syntax' (or True) / 'bytes' (its initial content has a syntax error / is not UTF-8).  A package __init__ may be absent at
 the start ('present': False): its directory exists and holds modules, relative imports in them resolve nothing
 until the __init__ is created.  A main may live inside a package directory ('pkg' set, 'main' True).
 A module may carry 'shadow': <attribute name>: it is a sub-module of its package whose FILE is named like an
@@ -32,8 +32,14 @@ History ops
 -----------
 ['create', mid] | ['rewrite', mid, d] | ['touch', mid, d] | ['put', mid, d]   (put = create if absent else rewrite)
 ['req', probe_index]
+['req', probe_index, 'lookup', mid]   ARMED request: while it runs, the harness makes the lookup of module mid
+                                      (Project.get_module) raise an injected fault, on whichever project is asked
+['req', probe_index, 'scope', mid]    same, but the fault sits in the analysis of mid (SourceModule.scope)
 ['break', mid, d]   writes the module with a syntax error (creates it if absent); the next rewrite/put repairs it.
-A request that reaches a broken module raises SyntaxError on the long-lived and on the fresh project alike.
+                    supp analyses such a module as one without names: requests succeed and are compared as usual.
+['garble', mid, d]  writes the module as bytes that are not valid UTF-8 (outside the property's domain, used only
+                    as a failure source): a request that reaches it raises UnicodeDecodeError on the long-lived and
+                    on the fresh project alike (never a verdict); the next rewrite/put repairs it.
 d (optional, default 'f') is the direction in which the modification moves the file's mtime:
 'f' = to the next integer second above every mtime the file ever had, 'b' = to the integer second
 below every mtime the file ever had (a restored backup / VCS checkout / cp -p).  Either way the new
@@ -180,6 +186,11 @@ def render(spec, mid, version, broken=False):
     if broken:
         lines.append('def (:   # saved in the middle of an edit')
     return '\n'.join(lines) + '\n'
+
+
+def garbled(version):
+    """file content that is not valid UTF-8"""
+    return b'\xff\xfe\x00 = %d\n' % version
 
 
 def is_relative(spec, mid, e):
@@ -391,11 +402,12 @@ def chain_spec(variant, tag):
             's': _mod(4, pkg='c', present=False, shadow=kc),
         }
     elif variant == 'X':
-        # error path: w is on disk with a syntax error; `a.w.` validates a and then fails in w
+        # error path: every request on m resolves its star imports in order: a (validated), then w; an armed
+        # request fails at the lookup of w
         mods = {
-            'm': _mod(0, [_e('import', 'a')], main=True),
+            'm': _mod(0, [_e('star', 'a'), _e('star', 'w')], main=True),
             'a': _mod(1, [_e('import', 'w')]),
-            'w': _mod(2, broken=True),
+            'w': _mod(2),
         }
         spec = {'tag': T, 'modules': mods, 'order': ['m', 'a', 'w']}
         spec['probes'] = build_probes(spec)
@@ -430,9 +442,9 @@ def chain_alphabet(variant, spec):
                 return ['req', i]
         raise AssertionError((kind, expr, [(p['kind'], p['expr']) for p in spec['probes']]))
     if variant == 'X':
-        a, w = T + 'a', T + 'w'
-        mods = [['rewrite', 'a'], ['touch', 'a'], ['break', 'w'], ['put', 'w']]
-        reqs = [req('assist-attr', a), req('assist-attr', '%s.%s' % (a, w)), req('assist-attr', '%s.K_%sa' % (a, T))]
+        mods = [['rewrite', 'a'], ['touch', 'a'], ['garble', 'w'], ['break', 'w'], ['put', 'w']]
+        bare = req('assist-bare', None)
+        reqs = [bare, req('assist-attr', 'K_%sa' % T), [bare[0], bare[1], 'lookup', 'w']]
         return mods, reqs
     if variant == 'P':
         h = T + 'h'
@@ -468,12 +480,14 @@ def chain_count(mods, reqs, length):
     return len(reqs) * (len(mods) + len(reqs)) ** (length - 1)
 
 
-MODIFYING = ('rewrite', 'touch', 'put', 'break')
+MODIFYING = ('rewrite', 'touch', 'put', 'break', 'garble')
 
 
 def op_code(op):
     """E/T/P/C/R + target; lower case (e/t/p) = the modification moves the mtime backward"""
-    c = {'rewrite': 'E', 'touch': 'T', 'put': 'P', 'create': 'C', 'req': 'R', 'break': 'B'}[op[0]]
+    if op[0] == 'req' and len(op) >= 4:
+        return 'R%s%s%s' % (op[1], '!' if op[2] == 'lookup' else '^', op[3])
+    c = {'rewrite': 'E', 'touch': 'T', 'put': 'P', 'create': 'C', 'req': 'R', 'break': 'B', 'garble': 'G'}[op[0]]
     if len(op) > 2 and op[2] == 'b' and op[0] != 'create':
         c = c.lower()
     return c + str(op[1])
@@ -654,7 +668,7 @@ def random_history(rng, spec, max_len=40):
         elif r < 0.60 and breakable:
             x = rng.choice(breakable)
             broken.add(x)
-            hist.append(['break', x, direction()])
+            hist.append([rng.choice(('break', 'garble')), x, direction()])
         elif r < 0.70 and broken:
             x = rng.choice(sorted(broken))
             broken.discard(x)
@@ -665,19 +679,61 @@ def random_history(rng, spec, max_len=40):
             hist.append(['rewrite', x, direction()])
         else:
             hist.append(['touch', rng.choice(sorted(present)), direction()])
-    # planted error-path episode: a request that validates x and then fails in the broken module y,
-    # an edit of x, and a request through x that does not reach y
+    # armed requests: (probe on F, module y whose lookup fails) such that F's own analysis validates another
+    # module z first (star imports are resolved in order before anything is evaluated) and then looks y up
+    armable = []
+    for fmid in mods:
+        if not mods[fmid]['main']:
+            continue
+        edges = mods[fmid]['edges']
+        stars = [k for k, e in enumerate(edges) if e['kind'] == 'star' and mods[e['to']]['present']]
+        for k, e in enumerate(edges):
+            y = e['to']
+            if not mods[y]['present'] or mods[y]['main']:
+                continue
+            for ks in stars:
+                z = edges[ks]['to']
+                if z == y:
+                    continue
+                if e['kind'] == 'star':
+                    if ks < k:
+                        for i, p in enumerate(probes):
+                            if p['file'] == fmid:
+                                armable.append((i, y, z))
+                else:
+                    for i, p in enumerate(probes):
+                        if p['file'] == fmid and len(p['path']) >= 2 and p['path'][1] == y and p['kind'] in ('assist-attr', 'location'):
+                            armable.append((i, y, z))
+    if armable:
+        # sprinkle a few armed requests
+        for _ in range(rng.randint(0, 2)):
+            i, y, z = rng.choice(armable)
+            hist.insert(rng.randint(1, len(hist)), ['req', i, 'lookup', y])
+        # planted error-path episode: a request on F succeeds, the armed one validates z and fails at the lookup
+        # of y (on both projects), z is rewritten, the next request on F must show the new z
+        if rng.random() < 0.5:
+            i, y, z = rng.choice(armable)
+            fmid = probes[i]['file']
+            bare = [k for k, p in enumerate(probes) if p['file'] == fmid and p['kind'] in ('assist-bare', 'lint')]
+            q = rng.choice(bare) if bare else i
+            episode = [['req', q], ['req', i, 'lookup', y], ['rewrite', z, direction()], ['req', q]]
+            if rng.random() < 0.2:
+                # the fault in the analysis of z instead (reached only where z is analysed anew)
+                episode = [['req', q], ['rewrite', z, direction()], ['req', q, 'scope', z], ['rewrite', z, direction()], ['req', q]]
+            at = rng.randint(0, len(hist))
+            hist[at:at] = episode
+    # planted broken-file episode (ordinary compared steps): request through x..y, y saved broken, request,
+    # x rewritten, request through x, y repaired, request
     deep = [i for i, p in enumerate(probes) if len(p['path']) >= 3 and p['kind'] != 'lint'
             and all(mods[z]['present'] for z in p['path']) and not mods[p['path'][-1]]['main']]
-    if deep and rng.random() < 0.35:
+    if deep and rng.random() < 0.2:
         pi = rng.choice(deep)
         path = probes[pi]['path']
         x, y = path[1], path[-1]
         shallow = [i for i, p in enumerate(probes) if p['file'] == path[0] and p['path'] == path[:2] and p['kind'] == 'assist-attr']
         q = rng.choice(shallow) if shallow else pi
-        episode = [['req', pi], ['break', y, direction()], ['req', pi], ['rewrite', x, direction()], ['req', q]]
-        if rng.random() < 0.7:
-            episode += [['rewrite', y, direction()], ['req', pi]]
+        episode = [['req', pi], [rng.choice(('garble', 'break')), y, direction()], ['req', pi], ['rewrite', x, direction()], ['req', q],
+                   ['rewrite', y, direction()], ['req', pi]]
         at = rng.randint(0, len(hist))
         hist[at:at] = episode
     return hist
